@@ -411,6 +411,102 @@ def moveAxis (dims : List (Nat × Nat)) (src dst : Nat) : Option (List (Nat × N
     some (insertAt (dims.eraseIdx src) dst (dims.getD src (0, 0)))
   else none
 
+/-! ### Chains of view operations and programs on owned tensors -/
+
+/-- A view somewhere inside a root storage: absolute offset of its storage, the length of its
+storage (`Range::len` of the range it was cut with), and its layout. -/
+structure AView where
+  base : Nat
+  len : Nat
+  dims : List (Nat × Nat)
+  deriving DecidableEq, Repr
+
+inductive ViewOp where
+  | slice (items : List SItem)
+  | sliceAxis (axis start stop : Nat)
+  | splitLeft (axis mid : Nat)
+  | splitRight (axis mid : Nat)
+  | broadcast (target : List Nat)     -- immutable views only (`broadcast` returns `ViewData`)
+  deriving DecidableEq, Repr
+
+def AView.sub (v : AView) (w : View) : AView := ⟨v.base + w.start, w.stop - w.start, w.dims⟩
+
+/-- One view-producing call on a view; `none` = error or panic (no new view). -/
+def applyView (mutable : Bool) (v : AView) : ViewOp → Option AView
+  | .slice items =>
+    match trySlice true v.dims v.len items with
+    | .ok w => some (v.sub w)
+    | .error _ => none
+  | .sliceAxis axis s e => (sliceAxis v.dims v.len axis s e).map v.sub
+  | .splitLeft axis mid => (splitAtMut v.dims v.len axis mid).map (fun p => v.sub p.1)
+  | .splitRight axis mid => (splitAtMut v.dims v.len axis mid).map (fun p => v.sub p.2)
+  | .broadcast target =>
+    if mutable then none else (broadcast v.dims target).map (fun b => ⟨v.base, v.len, b⟩)
+
+/-- Any sequence of view-producing calls, each applied to the result of the previous one. -/
+def runViews (mutable : Bool) : AView → List ViewOp → Option AView
+  | v, [] => some v
+  | v, op :: ops =>
+    match applyView mutable v op with
+    | none => none
+    | some w => runViews mutable w ops
+
+inductive OwnedOp where
+  | clip (dim start stop : Nat)
+  | append (axis : Nat) (other : List (Nat × Nat))
+  deriving DecidableEq, Repr
+
+/-- One mutating call on an owned tensor; a failing call (error or panic) leaves the tensor
+as it was — which for `DynLayout` holds only since fix `90df0e8`. -/
+def stepOwned (t : Owned) : OwnedOp → Owned
+  | .clip dim s e => (clipDim t dim s e).getD t
+  | .append axis other =>
+    match append t axis other with
+    | .ok t' => t'
+    | .error _ => t
+
+/-! ### `DynLayout` before fix `90df0e8`: one array `shape ++ strides`, indexed unchecked
+
+Kept as a witness: `size(dim)` / `resize_dim(dim, _)` with `ndim ≤ dim < 2·ndim` read / write a
+stride; the panic comes after the write and leaves the modified layout behind. -/
+namespace OldDyn
+
+def ndim (a : List Nat) : Nat := a.length / 2
+def shape (a : List Nat) : List Nat := a.take (ndim a)
+def strides (a : List Nat) : List Nat := a.drop (ndim a)
+/-- The `(size, stride)` pairs `offset()` zips together. -/
+def dims (a : List Nat) : List (Nat × Nat) := (shape a).zip (strides a)
+
+/-- `clip_dim(dim, start..stop)` on the array: layout afterwards and whether the call
+panicked (the data movement is omitted). -/
+def clipDim (a : List Nat) (dim start stop : Nat) : List Nat × Bool :=
+  if start ≤ stop then
+    match a[dim]? with                      -- `self.size(dim)`
+    | none => (a, true)
+    | some sz =>
+      if stop ≤ sz then
+        let a' := a.set dim (stop - start)  -- `resize_dim`
+        if prod (shape a') = 0 then (a', false)
+        else
+          match a'[ndim a' + dim]? with     -- `self.layout.stride(dim)`
+          | none => (a', true)
+          | some _ => (a', false)
+      else (a, true)
+  else (a, true)
+
+/-- `remove_axis(index)` on the array. -/
+def removeAxis (a : List Nat) (index : Nat) : List Nat × Bool :=
+  match a[index]? with                      -- `self.size(index) == 1`
+  | none => (a, true)
+  | some sz =>
+    if sz ≠ 1 then (a, true)
+    else
+      let a1 := a.eraseIdx index            -- `shape_and_strides.remove(index)`
+      if ndim a1 + index < a1.length then (a1.eraseIdx (ndim a1 + index), false)
+      else (a1, true)                       -- second `remove` panics
+
+end OldDyn
+
 /-! ## Machine model (`UInt64`, wrap-around) -/
 namespace M
 
